@@ -23,6 +23,9 @@ pub enum Stmt {
     Sleep(u8),
     /// defines the call-injection targets c0..c6 (each logs its arguments) and calls each once
     CallTargets,
+    /// a call of an `#[inline(always)]` function of this file that itself contains an inlined call
+    /// followed by a statement of its own
+    CallInl,
 }
 
 impl Stmt {
@@ -39,6 +42,7 @@ impl Stmt {
             Stmt::RaiseBurst => "sb".into(),
             Stmt::Sleep(n) => format!("z{n}"),
             Stmt::CallTargets => "ct".into(),
+            Stmt::CallInl => "n".into(),
         }
     }
 }
@@ -302,6 +306,20 @@ pub fn generate(name: &str, body: &[Stmt]) -> Program {
         s.l("}", None);
         functions.push("rec".into());
     }
+    if needs(|s| matches!(s, Stmt::CallInl)) {
+        s.l("#[inline(always)]", None);
+        s.l("fn scale(x: u64) -> u64 {", None);
+        s.l("    let s = x.wrapping_mul(5);", Some("scale.1"));
+        s.l("    s.wrapping_add(2)", Some("scale.2"));
+        s.l("}", None);
+        s.l("#[inline(always)]", None);
+        s.l("fn mix(p: u64) -> u64 {", None);
+        s.l("    let m = p.wrapping_add(7);", Some("mix.1"));
+        s.l("    let n = scale(m);", Some("mix.2"));
+        s.l("    let o = n ^ 3;", Some("mix.3"));
+        s.l("    o", Some("mix.4"));
+        s.l("}", None);
+    }
     let targets = needs(|s| matches!(s, Stmt::CallTargets));
     if targets {
         s.raw(r#"pub static mut LOGN: u64 = 0;
@@ -390,6 +408,10 @@ pub fn c6(a: i64, b: i64, c: i64, d: i64, e: i64, f: i64) {
             }
             Stmt::Rec(n) => {
                 s.l(&format!("    a += rec({n});"), Some(&m("callrec")));
+            }
+            Stmt::CallInl => {
+                s.l("    a = mix(a);", Some(&m("callinl")));
+                s.l("    a = a.wrapping_add(scale(a));", Some(&m("callinl2")));
             }
             Stmt::Raise(sig) => {
                 s.l("    a += 1;", Some(&m("pre")));
